@@ -2,7 +2,7 @@
 # tools/run_seed.sh <seed ID> <check ID> [extra check args]: run a check against a scratch worktree of /repo HEAD
 # with the seeded change applied (never touches /repo itself)
 S=$1; C=$2; shift 2
-W=/tmp/seedwt_$S_$$
+W=/tmp/seedwt_${S}_$$
 git -C /repo worktree add -q --detach $W HEAD || exit 9
 git -C $W apply /verif/seeded/$S/patch.diff || { git -C /repo worktree remove --force $W; exit 8; }
 cd /verif && FORD_REPO=$W ./check $C --no-evidence "$@" 2>&1 | grep -a -E "^\[|VIOLATION|INCONCLUSIVE|MISMATCH" | cut -c1-260
